@@ -61,6 +61,8 @@ pub struct World<'a> {
     pub thorough: bool,
     /// namespaces whose signed refs on the server are no longer something an honest owner can extend
     pub broken: BTreeSet<usize>,
+    /// refs_at mode of the fetch being checked (0 = no refs_at: every namespace is requested)
+    pub last_mode: u8,
     /// forged sigrefs-like commits that exist in the server's object database but under no ref
     pub forged_at: BTreeMap<usize, Oid>,
 }
@@ -163,6 +165,7 @@ impl<'a> World<'a> {
 
     /// One fetch by L from the server. Returns a short outcome label.
     pub fn fetch(&mut self, script: FaultScript, refs_at_mode: u8) -> String {
+        self.last_mode = refs_at_mode;
         let rid = self.rid;
         let local = self.actors[self.l].nid;
         let before = self.l_snapshot();
@@ -272,6 +275,9 @@ impl<'a> World<'a> {
                     msg = msg.replace(&c.to_string(), &format!("c{i}"));
                 }
                 let msg: String = msg.split_whitespace().map(|w| if w.len() == 40 && w.chars().all(|c| c.is_ascii_hexdigit()) { "<oid>".to_string() } else if w.len() == 41 && w.ends_with([',', ')']) && w[..40].chars().all(|c| c.is_ascii_hexdigit()) { format!("<oid>{}", &w[40..]) } else { w.to_string() }).collect::<Vec<_>>().join(" ");
+                // Where in the protocol a cut or a flipped bit lands depends on how the serving process happened to
+                // chunk its side-band packets (real time): the error text after a transport fault is not part of the trace.
+                let msg = if faulty { "<after a transport fault>".to_string() } else { msg };
                 self.res.trace.log("fetch-error", format!("{} refs_at_mode={} -> Err({})", if exists { "pull" } else { "clone" }, if with_refs_at { refs_at_mode } else { 0 }, msg));
                 self.res.hit("probe.fetch.error");
                 self.check_fetch(&before, &after, "error", faulty);
@@ -317,14 +323,23 @@ fn script(ch: &mut Chooser, faults: bool) -> FaultScript {
 
 pub fn run(ch: &mut Chooser, cfg: &RunCfg) -> RunResult {
     let seed = ch.seed;
-    let own = if cfg.property.starts_with("ALL") { "*".to_string() } else { cfg.property.clone() };
+    let own = if cfg.property.starts_with("ALL") {
+        "*".to_string()
+    } else if cfg.property.starts_with("C13") {
+        "C13".to_string()
+    } else {
+        cfg.property.clone()
+    };
     // the canonical-head check wants many delegates, high thresholds and honest, frequent fetches
     let c03 = cfg.property == "C03";
     let k = 1 + if c03 { ch.weighted(&[1, 2, 4, 8]) } else { ch.weighted(&[2, 3, 3, 2]) }; // delegates
-    let threshold = if c03 && ch.pick(2) == 0 { k - ch.pick_usize(2).min(k - 1) } else { 1 + ch.pick_usize(k) };
+    // the threshold check (C02) wants thresholds at or just below the number of delegates, so that tampering with
+    // one or two delegates decides between success and failure
+    let c02 = cfg.property == "C02";
+    let threshold = if (c03 || c02) && ch.pick(3) != 0 { k - ch.pick_usize(2).min(k - 1) } else { 1 + ch.pick_usize(k) };
     let others = if c03 { 0 } else { ch.pick_usize(3) };
     let l_is_delegate = !c03 && k >= 2 && ch.pick(2) == 1;
-    let faults = if c03 { ch.pick(8) == 7 } else { ch.pick(4) != 0 };
+    let faults = if c03 { ch.pick(8) == 7 } else if c02 { ch.pick(8) != 0 } else { ch.pick(4) != 0 };
     let mut actors: Vec<Actor> = Vec::new();
     for i in 0..k {
         let signer = gen::key(seed, i as u64);
@@ -363,7 +378,7 @@ pub fn run(ch: &mut Chooser, cfg: &RunCfg) -> RunResult {
     let mut res = RunResult::new();
     res.trace.log("setup", format!("delegates={k} threshold={threshold} others={others} fetcher={} faults={faults}", actors[l].name));
     res.summary = format!("{k} delegate(s), threshold {threshold}, {others} other(s), fetcher {}, faults={faults}", actors[l].name);
-    let mut w = World { ch, own, res, dir, server, rid, threshold, actors, l, lst, commits: Vec::new(), tampered: BTreeMap::new(), time: 1_700_000_000, thorough: cfg.tier_thorough, broken: BTreeSet::new(), forged_at: BTreeMap::new() };
+    let mut w = World { ch, own, res, dir, server, rid, threshold, actors, l, lst, commits: Vec::new(), tampered: BTreeMap::new(), time: 1_700_000_000, thorough: cfg.tier_thorough, broken: BTreeSet::new(), last_mode: 0, forged_at: BTreeMap::new() };
 
     // honest history, round 1: a small commit DAG; each actor's master on a chosen commit
     let c0 = w.commit(&[]);
@@ -433,6 +448,8 @@ impl<'a> World<'a> {
                 }
                 let w = if self.broken.contains(&a) {
                     [1u32, 0, if faults { 1 } else { 0 }]
+                } else if faults && self.own == "C02" {
+                    [2, 2, 6]
                 } else if faults {
                     [3, 3, 4]
                 } else {
